@@ -178,6 +178,79 @@ func foldSeedBytes(b *[]byte, v structform.ExtVisitor) error {
 	return v.OnString(fmt.Sprintf("B%x", *b))
 }
 
+// registered folders for types whose values are "pointer shaped" (stored directly in an interface / reflect.Value word):
+// a named map, a struct made of one pointer, an array of one pointer
+type seedLabels map[string]string
+type seedBox struct{ P *int64 }
+type seedOne [1]*int64
+
+func foldSeedLabels(m *seedLabels, v structform.ExtVisitor) error {
+	if m == nil {
+		return v.OnNil()
+	}
+	return v.OnString(fmt.Sprintf("labels:%d", len(*m)))
+}
+func foldSeedBox(b *seedBox, v structform.ExtVisitor) error {
+	if b == nil {
+		return v.OnNil()
+	}
+	if b.P == nil {
+		return v.OnString("box:empty")
+	}
+	return v.OnString(fmt.Sprintf("box:%d", *b.P))
+}
+func foldSeedOne(a *seedOne, v structform.ExtVisitor) error {
+	if a == nil {
+		return v.OnNil()
+	}
+	if a[0] == nil {
+		return v.OnString("one:empty")
+	}
+	return v.OnString(fmt.Sprintf("one:%d", *a[0]))
+}
+
+var seedShapedCustom = map[reflect.Type]func(ptr reflect.Value) model.Value{
+	reflect.TypeOf(seedLabels(nil)): func(p reflect.Value) model.Value {
+		if p.IsNil() {
+			return model.NullV()
+		}
+		return model.StrV(fmt.Sprintf("labels:%d", p.Elem().Len()))
+	},
+	reflect.TypeOf(seedBox{}): func(p reflect.Value) model.Value {
+		if p.IsNil() {
+			return model.NullV()
+		}
+		if p.Elem().Field(0).IsNil() {
+			return model.StrV("box:empty")
+		}
+		return model.StrV(fmt.Sprintf("box:%d", p.Elem().Field(0).Elem().Int()))
+	},
+	reflect.TypeOf(seedOne{}): func(p reflect.Value) model.Value {
+		if p.IsNil() {
+			return model.NullV()
+		}
+		if p.Elem().Index(0).IsNil() {
+			return model.StrV("one:empty")
+		}
+		return model.StrV(fmt.Sprintf("one:%d", p.Elem().Index(0).Elem().Int()))
+	},
+}
+
+func seedShapedValues() []interface{} {
+	x := int64(7)
+	lb := seedLabels{"a": "1", "b": "2"}
+	return []interface{}{lb, &lb, seedLabels(nil), seedBox{&x}, &seedBox{&x}, seedBox{}, seedOne{&x}, &seedOne{&x},
+		struct{ L seedLabels }{lb}, struct{ B seedBox }{seedBox{&x}}, struct{ O seedOne }{seedOne{&x}},
+		struct {
+			A int
+			L seedLabels `struct:"l,omitempty"`
+			B seedBox
+		}{1, nil, seedBox{&x}},
+		[]seedLabels{lb, nil}, []seedBox{{&x}, {}}, map[string]seedLabels{"k": lb}, map[string]seedBox{"k": {&x}}, map[string]seedOne{"k": {&x}},
+		[]interface{}{lb, seedBox{&x}, seedOne{&x}, &lb}, map[string]interface{}{"l": lb, "b": seedBox{&x}},
+		struct{ I interface{} }{lb}, struct{ I interface{} }{seedBox{&x}}, [2]seedBox{{&x}, {}}, struct{ P *seedLabels }{&lb}}
+}
+
 var seedBuiltinCustom = map[reflect.Type]func(ptr reflect.Value) model.Value{
 	reflect.TypeOf(seedLevel(0)): func(p reflect.Value) model.Value {
 		if p.IsNil() {
@@ -255,6 +328,7 @@ func seeds() []seed {
 		{"SeedCustomHolder", []interface{}{SeedCustomHolder{C: SeedCustom{1}, P: &SeedCustom{2}, In: SeedCustom{3}}, SeedCustomHolder{}, SeedCustom{4}, &SeedCustom{5}, []SeedCustom{{6}}, map[string]*SeedCustom{"k": {7}}},
 			[]gotype.FoldOption{gotype.Folders(foldSeedCustom)}, nil},
 		{name: "SeedBuiltinFolders", vals: seedBuiltinValues(), opts: []gotype.FoldOption{gotype.Folders(foldSeedLevel, foldSeedFloat, foldSeedBytes)}, custom: seedBuiltinCustom},
+		{name: "SeedShapedFolders", vals: seedShapedValues(), opts: []gotype.FoldOption{gotype.Folders(foldSeedLabels, foldSeedBox, foldSeedOne)}, custom: seedShapedCustom},
 		{"SeedBad1", []interface{}{SeedBad1{}, SeedBad1{C: make(chan int)}}, nil, nil},
 		{"SeedBad2", []interface{}{SeedBad2{}}, nil, nil},
 		{"SeedBad3", []interface{}{SeedBad3{C: 1i}}, nil, nil},
